@@ -326,6 +326,14 @@ func sliceBuiltFrom(v ssa.Value, elem func(ssa.Value) bool) bool {
 				}
 			}
 			return true
+		case *ssa.ChangeType:
+			return rec(x.X)
+		case *ssa.Slice:
+			// s[:0] of a fresh array, or a full reslice
+			if _, fresh := x.X.(*ssa.Alloc); fresh {
+				return true
+			}
+			return x.Low == nil && x.High == nil && rec(x.X)
 		case *ssa.MakeSlice:
 			n, ok := IntConst(x.Len)
 			return ok && n == 0
